@@ -12,6 +12,18 @@ ENGINES = [
      'kind_free_text': 'preemption-bounded controlled scheduler over compiler-inserted load/store hooks with conflict (race) monitor'},
 ]
 TEXT = {
+    'C01': {
+        'level': 'Bounded-exhaustive exploration of the real parser and renderer under ASan/UBSan with the exact-fit growth hook (so slack capacity is a redzone) and in a fast guard-page build: every string of <=3 (quick) / <=4 (thorough) tokens over 49 template tokens (every tag opener/closer, attribute piece, quote, operator, path piece, fillers of 250/300/65540 units that wrap the 8/16-bit tag fields) plus every code-unit truncation of a token; every well-formed template with <=3/4 nodes over 12 leaf tags and 8 containers (nesting <=4) with every code-unit cut and every deviation of distance 1 (delete, insert one of 45 tokens anywhere, swap, replace a closer); each rendered from an unterminated exact-size buffer against 8 value trees (object/array roots, deep nesting, removed members, zero divisors, INT64_MIN, pointer member) as char and char16_t. Oracle: no sanitizer report, no signal (SIGFPE), no hang, earlier stream content intact, tag-free text renders to itself.',
+        'design_ref': 'DESIGN.md §5 C01',
+        'note': 'Texts inside the stated token/deviation bounds; two character widths in the token stage; SIMD variants affect only Memory::Copy (covered by C14).',
+        'technique': 'bounded-exhaustive input enumeration (token prefix tree + grammar derivations with bounded deviations) on the implementation under sanitizers',
+    },
+    'C04': {
+        'level': 'Every flat expression with <=3 (quick) / <=4 (thorough) operators over the 16 documented operators: all triples of 18 literal/parenthesised operands for <=2 operators, a covering rotation of 6 operands for 3-4, every pair of 12 variable operands (unsigned, negative, real, numeric string, true, false, null, text, empty, missing, nested) under every operator, == / != with bare words; 3 spacings each; evaluated by ParseExpressions+Evaluate, {math:}, <if case> and {if case}, which must agree. Reference: exact arithmetic on the operator sequence under the document\'s seven levels, returning the SET of values where the document leaves the association open (^ towers, ^ vs %, & vs |, comparisons among themselves, && vs ||).',
+        'design_ref': 'DESIGN.md §5 C04',
+        'note': 'Operands are dyadic rationals (exact IEEE arithmetic, no 64-bit overflow). Not judged: 0^0, 0^negative, 0^fraction, bases strictly between 0 and 1 (pinned as no value by EvaluateTest 19), bitwise operators on reals/negatives. Known finding: negative base with even negative exponent keeps the sign (pinned by EvaluateTest -8^-2).',
+        'technique': 'bounded-exhaustive enumeration of operator sequences on the implementation, set-valued reference evaluator',
+    },
     'C08': {
         'level': 'Every Value state reached by the C12 breadth-first search over operation histories (depth 3 quick / 4 thorough: removed members, array holes, pointer members, empty containers, containers ending in an omitted member) is stringified with 17 digits, parsed back and compared as a document (Undefined omitted, pointers dereferenced, numbers equal in value, doubles bit-identical); stringify-parse-stringify must be a fixed point; well-formed text must be accepted by a strict RFC 8259 reference parser. Plus a product set: 9 container shapes over every 7-bit unit as a one-unit string, all 2/3-unit strings over {\" \\ NUL 0x01 a}, multi-byte code points, 23 doubles (incl. -0, min subnormal, max, 1e21), 64-bit boundary integers and keywords, in four character widths.',
         'design_ref': 'DESIGN.md §5 C08',
